@@ -162,6 +162,29 @@ func (w *c17Worker) Run(path []LOp) (bfs.Outcome, error) {
 				}
 			}
 			obs = "ok"
+		case "exists":
+			// The account name is already taken on this instance: a complete generation is run for it (outside the
+			// alphabet's bookkeeping); afterwards nothing is active.
+			for _, e := range []error{
+				w.node.RecvPrepare(rig.PeerName(1), acct, 2, parts),
+				w.node.RecvExecute(rig.PeerName(1), acct),
+			} {
+				if e != nil {
+					return out, fmt.Errorf("cannot create the pre-existing account: %v", e)
+				}
+			}
+			for _, from := range []uint64{1, 3} {
+				p := poly(from, acct)
+				if _, _, e := w.node.RecvContribute(rig.PeerName(from), acct, p.Share(c17Self), p.VVec); e != nil {
+					return out, fmt.Errorf("cannot create the pre-existing account: %v", e)
+				}
+			}
+			if _, _, e := w.node.RecvCommit(rig.PeerName(1), acct, pat(0x77)); e != nil {
+				return out, fmt.Errorf("cannot create the pre-existing account: %v", e)
+			}
+			delete(polys, fmt.Sprintf("%d|%s", 1, acct))
+			delete(polys, fmt.Sprintf("%d|%s", 3, acct))
+			obs = "ok"
 		case "prepare":
 			err = w.node.RecvPrepare(rig.PeerName(op.From), acct, 2, parts)
 			if m.active {
@@ -244,9 +267,13 @@ func (w *c17Worker) Run(path []LOp) (bfs.Outcome, error) {
 						if !heldBefore && len(holders(w.c, acct)) > 0 {
 							viol("failed-commit-created-account", fmt.Sprintf("%s failed (%v) but the account exists afterwards", op, err))
 						}
-						// Session fate after a failed commit is unspecified: follow the implementation.
-						present, _ := sessionOf(w.node, acct)
-						m.active = present
+						// A generation ends by a successful commit, an abort or the timeout, and by nothing else: after a
+						// failed commit it is still the one generation of its name.
+						if present, _ := sessionOf(w.node, acct); !present {
+							viol("failed-commit-ended-generation", fmt.Sprintf("%s failed (%v) and the generation is gone from the session table although it was neither committed nor aborted nor timed out", op, err))
+							m.active = false
+							m.contributed = map[uint64]bool{}
+						}
 					}
 				case "abort":
 					if err != nil {
@@ -261,7 +288,7 @@ func (w *c17Worker) Run(path []LOp) (bfs.Outcome, error) {
 				}
 			}
 		}
-		if _, isTick := c17Ticks[op.Kind]; !isTick {
+		if _, isTick := c17Ticks[op.Kind]; !isTick && op.Kind != "exists" {
 			if _, afterOther := sessionOf(w.node, other); afterOther != beforeOther {
 				viol("other-account-affected", fmt.Sprintf("%s changed the session of the other account name: [%s] -> [%s]", op, beforeOther, afterOther))
 			}
@@ -375,9 +402,16 @@ func C17(tier string) int {
 	outcomes := map[string]int{}
 	r, err := bfs.Explore(bfs.Config[LOp]{
 		NewWorker: func() (bfs.Worker[LOp], error) { return newC17Worker(&serial) },
-		Ops:       func([]LOp) []LOp { return ops },
-		MaxDepth:  depth,
-		Budget:    budget,
+		Ops: func(path []LOp) []LOp {
+			if len(path) == 0 {
+				// A history may start with the name of account a already taken (a later commit then fails when the key is
+				// stored, not for want of contributions).
+				return append(append([]LOp{}, ops...), LOp{Kind: "exists", Acct: 0})
+			}
+			return ops
+		},
+		MaxDepth: depth,
+		Budget:   budget,
 		OnViolation: func(path []LOp, v bfs.Viol) {
 			var pt []string
 			for _, o := range path {
@@ -432,7 +466,7 @@ func C17(tier string) int {
 		"events_per_state":              len(ops),
 		"outcomes":                      outcomes,
 	}
-	run.Assumptions = []string{"the fate of a session after a failed commit is not specified by the property; the model follows the implementation there", "threshold 2 of 3 only"}
+	run.Assumptions = []string{"a generation ends by a successful commit, an abort or the timeout and by nothing else (after a failed commit it is still the one generation of its name)", "threshold 2 of 3 only"}
 	return run.Finish()
 }
 
